@@ -112,9 +112,16 @@ def rule_2(ctx):
     ok = False
     for fn in inner:
         r = last_return(fn)
-        if r is not None and isinstance(r.value, ast.Call) and isinstance(r.value.func, ast.Name) and r.value.func.id == 'operator':
+        if r is not None and isinstance(r.value, ast.Call) and isinstance(r.value.func, ast.Name) and r.value.func.id not in func_params(fn):
             a = r.value.args
-            ok = len(a) == 2 and isinstance(a[0], ast.Name) and a[0].id == func_params(fn)[0] and isinstance(a[1], ast.Name) and a[1].id == 'value'
+            # callee: the free variable bound to the chosen comparison wrapper (looked up in CRITERIA_OPERATORS)
+            callee = r.value.func.id
+            bound_to_table = any(isinstance(x, ast.Assign) and any(isinstance(t, ast.Name) and t.id == callee for t in x.targets)
+                                 and 'CRITERIA_OPERATORS' in ast.unparse(x.value) for x in walk_local(pc))
+            operand_var = a[1].id if len(a) == 2 and isinstance(a[1], ast.Name) else None
+            operand_is_cast = any(isinstance(x, ast.Assign) and any(isinstance(t, ast.Name) and t.id == operand_var for t in x.targets)
+                                  for x in walk_local(pc))
+            ok = ok or (len(a) == 2 and isinstance(a[0], ast.Name) and a[0].id == func_params(fn)[0] and bound_to_table and operand_is_cast)
     ctx.expect(ok, pc, 'check(probe) = operator(probe, operand)', 'the check closure does not call operator(cell value, operand) in that order')
     ctx.floor(12, 'criteria table + regex witness classes + fallback')
 
